@@ -12,7 +12,7 @@ def run_patch(p):
     w = tempfile.mkdtemp(prefix="acq-mx.", dir="/var/tmp")
     try:
         subprocess.run(["rsync", "-a", "--exclude", "_build", "--exclude", ".git", "/repo/", w + "/repo/"], check=True)
-        r = subprocess.run(["patch", "-p1", "-s", "-d", w + "/repo", "-i", os.path.abspath(p)], capture_output=True, text=True)
+        r = subprocess.run([V + "/tools/apply_patch.sh", w + "/repo", os.path.abspath(p)], capture_output=True, text=True)
         if r.returncode != 0:
             return p, {"error": "patch does not apply: " + (r.stdout + r.stderr)[-300:]}
         out = {}
@@ -35,7 +35,7 @@ def run_patch(p):
         shutil.rmtree(w, ignore_errors=True)
 
 res = {}
-with ThreadPoolExecutor(max_workers=10) as ex:
+with ThreadPoolExecutor(max_workers=int(os.environ.get("MATRIX_JOBS", "10"))) as ex:
     for p, out in ex.map(run_patch, patches):
         name = os.path.relpath(p, V)
         res[name] = out
